@@ -91,5 +91,10 @@ for text, k, argexpr in [("expr_literals : '-' NUMBER", 2, 'concat("-", old(yyDo
     out += [f'//@ func action["{text}"]', '//@ props C03', f'//@ requires shape: yyVAL != nil && len(yyDollar) == {k + 1}', '//@ modifies *',
             '//@ traces toNumber',
             f'//@ ensures [C03] number: ncalls() == 1 && calleeIs(0, "toNumber") && arg(0) == {argexpr} && typeis(yyVAL.expr_literals, "*ast.LiteralExpr") && {LIT} != nil && fresh({LIT}) && {LIT}.Literal == res2(0)', '']
+# keyword literals: every occurrence builds its OWN fresh literal node (C15: parsing keeps no memory between calls - a node shared
+# between trees would have its position overwritten by later parses) holding the value the keyword denotes (C03)
+for text, val in [("expr_literals : TRUE", "trueValue"), ("expr_literals : FALSE", "falseValue"), ("expr_literals : NIL", "nilValue")]:
+    out += [f'//@ func action["{text}"]', '//@ props C03 C15', '//@ requires shape: yyVAL != nil && len(yyDollar) == 2', '//@ modifies *',
+            f'//@ ensures [C03 C15] keyword: typeis(yyVAL.expr_literals, "*ast.LiteralExpr") && {LIT} != nil && fresh({LIT}) && {LIT}.Literal == {val}', '']
 open('/repo/parser/zz_contracts_actions_verif.go', 'w').write("\n".join(out))
 print("written", len(T), "action contracts")
